@@ -49,6 +49,7 @@ def verify_one(job):
         for m in modules:
             importlib.import_module("contracts." + m)
         eng = Engine(repo_root=repo, verif_root=VERIF, seed=seed, timeout_ms=timeout_ms)
+        eng.function_budget_s = 600.0 if timeout_ms <= 10000 else 1800.0
         c = spec.CONTRACTS[target]
         rep = eng.verify_function(c, regimes=regimes)
         return {
